@@ -1,8 +1,9 @@
 import PetgraphModel.Proofs.GraphMap
 /-
 C03 (wave 4) — the compact numbering of the mirror model IS the iteration order
-(`NodeIndexable` against `nodes()`, `EdgeIndexable` against `all_edges()`), and which pairs
-`EdgeIndexable::to_index` accepts.
+(`NodeIndexable` against `nodes()`, `EdgeIndexable` against `all_edges()`), which pairs
+`EdgeIndexable::to_index` accepts (wave 5, after the repair of D33: either orientation of an undirected
+edge), and that every edge id the graph hands out is accepted.
 -/
 namespace PetgraphModel.C03W4
 open PetgraphModel PetgraphModel.GM PetgraphModel.SimpleGraphSpec PetgraphModel.GMProofs
@@ -56,11 +57,14 @@ theorem edgeFromIndex_iff (s : State) (i a b : Nat) :
   | none => simp
   | some e => obtain ⟨⟨x, y⟩, w⟩ := e; simp
 
+/-- `EdgeIndexable::to_index((a, b)) = i` iff `all_edges()` lists the canonical name of the pair
+(`edge_key(a, b)`: the pair itself when directed, the ascending pair when undirected) at position `i` -/
 theorem edgeToIndex_iff (s : State) (h : Inv s) (a b i : Nat) :
-    (step s (.edgeToIndex a b)).2 = .nat i ↔ ∃ w, (allEdges s)[i]? = some (a, b, w) := by
+    (step s (.edgeToIndex a b)).2 = .nat i ↔
+      ∃ w, (allEdges s)[i]? = some ((edgeKey s.directed a b).1, (edgeKey s.directed a b).2, w) := by
   rw [allEdges_getElem?, ← indexOf?_eq_some_iff s.edges h.edgesNodup]
   simp only [step]
-  cases IMap.indexOf? s.edges (a, b) <;> simp
+  cases IMap.indexOf? s.edges (edgeKey s.directed a b) <;> simp
 
 theorem edgeFromIndex_panic_iff (s : State) (i : Nat) :
     (step s (.edgeFromIndex i)).2 = .panic ↔ edgeCount s ≤ i := by
@@ -71,27 +75,103 @@ theorem edgeFromIndex_panic_iff (s : State) (i : Nat) :
     have := (List.getElem?_eq_some_iff.1 h).1
     simp; omega
 
-/-- `EdgeIndexable::to_index((a, b))` answers exactly for the pairs `all_edges()` lists: an edge, under
-its own orientation when directed and under the ascending one when undirected -/
-theorem edgeToIndex_panic_iff (s : State) (h : Inv s) (a b : Nat) :
-    (step s (.edgeToIndex a b)).2 = .panic ↔ ¬ ((abs s).hasEdge a b = true ∧ (s.directed = true ∨ a ≤ b)) := by
-  have hstep : (step s (.edgeToIndex a b)).2 = .panic ↔ IMap.get? s.edges (a, b) = none := by
-    simp only [step, ← indexOf?_none]
-    cases IMap.indexOf? s.edges (a, b) <;> simp
-  rw [hstep, abshas]
+/-- `EdgeIndexable::to_index((a, b))` panics ("edge not found") exactly when `(a, b)` is not an edge —
+for an undirected graph `{a, b}` in either orientation (`(abs s).hasEdge` is symmetric then) -/
+theorem edgeToIndex_panic_iff (s : State) (a b : Nat) :
+    (step s (.edgeToIndex a b)).2 = .panic ↔ (abs s).hasEdge a b = false := by
+  rw [abshas]
+  simp only [step]
+  cases hi : IMap.indexOf? s.edges (edgeKey s.directed a b) with
+  | none => simp [(indexOf?_none _ _).1 hi]
+  | some i =>
+    have hne : IMap.get? s.edges (edgeKey s.directed a b) ≠ none := by
+      intro hn; rw [(indexOf?_none _ _).2 hn] at hi; cases hi
+    cases hg : IMap.get? s.edges (edgeKey s.directed a b) with
+    | none => exact absurd hg hne
+    | some w => simp
+
+/-- on an undirected graph both orientations of a pair get the same answer -/
+theorem edgeToIndex_symm (s : State) (hu : s.directed = false) (a b : Nat) :
+    (step s (.edgeToIndex a b)).2 = (step s (.edgeToIndex b a)).2 := by
+  have hk : edgeKey s.directed a b = edgeKey s.directed b a := by
+    unfold edgeKey; rw [hu]
+    by_cases h1 : a ≤ b <;> by_cases h2 : b ≤ a <;> simp [h1, h2]
+    · have : a = b := by omega
+      subst this; exact ⟨rfl, rfl⟩
+    · omega
+  simp only [step, hk]
+
+/-! ### every edge id the graph hands out is accepted -/
+
+/-- the edge id `(x, y)` is accepted by `EdgeIndexable::to_index` (no panic) and `from_index` of the
+answer is the canonical form of the id (`edge_key(x, y)`) -/
+def Accepted (s : State) (x y : Nat) : Prop :=
+  ∃ i, (step s (.edgeToIndex x y)).2 = .nat i ∧
+    (step s (.edgeFromIndex i)).2 = .pair (edgeKey s.directed x y).1 (edgeKey s.directed x y).2
+
+theorem accepted_of_hasEdge (s : State) (x y : Nat) (hE : (abs s).hasEdge x y = true) : Accepted s x y := by
+  rw [abshas] at hE
+  cases hi : IMap.indexOf? s.edges (edgeKey s.directed x y) with
+  | none => rw [(indexOf?_none _ _).1 hi] at hE; cases hE
+  | some i =>
+    obtain ⟨hlt, he⟩ := indexOf?_some _ _ _ hi
+    refine ⟨i, by simp only [step, hi], ?_⟩
+    simp only [step, List.getElem?_eq_getElem hlt, he]
+
+theorem accepted_iff_hasEdge (s : State) (x y : Nat) : Accepted s x y ↔ (abs s).hasEdge x y = true := by
   constructor
-  · intro hn ⟨hE, hc⟩
-    have : edgeKey s.directed a b = (a, b) := by
-      unfold edgeKey; rcases hc with hd | hle
-      · simp [hd]
-      · simp [hle]
-    rw [this, hn] at hE; cases hE
-  · intro hn
-    cases hg : IMap.get? s.edges (a, b) with
-    | none => rfl
-    | some w =>
-      exfalso; apply hn
-      have hs : (IMap.get? s.edges (a, b)).isSome = true := by simp [hg]
-      refine ⟨by rw [canon_key s h a b hs]; exact hs, h.good.canon a b hs⟩
+  · rintro ⟨i, hi, _⟩
+    cases hE : (abs s).hasEdge x y with
+    | true => rfl
+    | false => rw [(edgeToIndex_panic_iff s x y).2 hE] at hi; cases hi
+  · exact accepted_of_hasEdge s x y
+
+theorem accepted_edgesDirected (s : State) (h : Inv s) (a : Nat) (d : Dir) (e : Nat × Nat × Option Nat)
+    (he : e ∈ edgesDirected s a d) : Accepted s e.1 e.2.1 := by
+  rw [edgesDirected_eq s h] at he
+  unfold someWeights at he
+  obtain ⟨⟨x, y, w⟩, ht, rfl⟩ := List.mem_map.1 he
+  have hw := ((edgeTriples_ok s h a d).2 x y w).1 ht
+  apply accepted_of_hasEdge
+  show ((abs s).w x y).isSome = true
+  cases d with
+  | out => obtain ⟨rfl, hw⟩ := hw; simp [hw]
+  | inc => obtain ⟨rfl, hw⟩ := hw; simp [hw]
+
+theorem accepted_edgesOf (s : State) (h : Inv s) (a : Nat) (e : Nat × Nat × Option Nat)
+    (he : e ∈ edgesOf s a) : Accepted s e.1 e.2.1 := by
+  rw [edgesOf_eq s h] at he
+  exact accepted_edgesDirected s h a .out e he
+
+theorem accepted_allEdges (s : State) (h : Inv s) (e : Nat × Nat × Nat) (he : e ∈ allEdges s) :
+    Accepted s e.1 e.2.1 := by
+  obtain ⟨x, y, w⟩ := e
+  have := (allEdges_ok s h).2.1 x y w he
+  apply accepted_of_hasEdge
+  show ((abs s).w x y).isSome = true
+  simp [this]
+
+theorem accepted_after_addEdge (s : State) (h : Inv s) (a b w : Nat) : Accepted (addEdge s a b w).1 a b := by
+  apply accepted_of_hasEdge
+  rw [addEdge_abs s a b w h]
+  simp [SG.hasEdge, SG.addEdge, samePair]
+
+theorem accepted_buildUpdateEdge (s : State) (h : Inv s) (a b w x y : Nat)
+    (ho : (step s (.buildUpdateEdge a b w)).2 = .pair x y) :
+    Accepted (step s (.buildUpdateEdge a b w)).1 x y := by
+  simp only [step, Out.pair.injEq] at ho
+  obtain ⟨rfl, rfl⟩ := ho
+  exact accepted_after_addEdge s h a b w
+
+theorem accepted_buildAddEdge (s : State) (h : Inv s) (a b w : Nat) (p : Nat × Nat)
+    (ho : (step s (.buildAddEdge a b w)).2 = .optPair (some p)) :
+    Accepted (step s (.buildAddEdge a b w)).1 p.1 p.2 := by
+  simp only [step, buildAddEdge] at ho ⊢
+  by_cases hc : containsEdge s a b = true
+  · simp [hc] at ho
+  · simp only [hc] at ho ⊢
+    simp only [Bool.false_eq_true, if_false, Out.optPair.injEq, Option.some.injEq] at ho ⊢
+    subst ho
+    exact accepted_after_addEdge s h a b w
 
 end PetgraphModel.C03W4
